@@ -16,7 +16,7 @@ RULE = ("convolve: every (nx, nw) pair of the box (quick 1..120 + all pairs padd
         "distinct = distinct (nx,nw,mode) or (function,length,axis)")
 ASSUMPTIONS = ["numpy.convolve / numpy.fft are the textbook definitions", "float64 tolerance 1e-9 relative to the operands' magnitudes"]
 REQUIRED = {"contract:convolve_post": 1000, "fexpand_checked": 100, "fscale_checked": 100, "nsoptim_checked": 1000,
-            "lphp_checked": 50, "integer_sample_arrays": 20, "dft_checked": 50, "cosine_checked": 20}
+            "lphp_checked": 50, "integer_sample_arrays": 20, "filter_history_calls": 200, "dft_checked": 50, "cosine_checked": 20}
 CASE_TIMEOUT = 300.0
 
 _VIOL = []
@@ -42,6 +42,7 @@ def gen_cases(seed, tier):
                   "nrand": 20000 if tier == "thorough" else 3000, "_w": 2})
     for k in range(4):
         cases.append({"cls": "filters", "seed": seed, "lens": list(range(2 + k, L + 1, 4)), "_w": L / 40})
+    cases.append({"cls": "filters-history", "seed": seed, "nmax": L, "_w": L / 40})
     cases.append({"cls": "dft", "seed": seed, "nmax": 64 if tier == "thorough" else 32, "_w": 2})
     cases.append({"cls": "cosine", "seed": seed, "n": 400 if tier == "thorough" else 80, "_w": 1})
     return cases
@@ -290,6 +291,37 @@ def run_case(case):
                     res.exception(key + ":exception", e, f"n={n} nd={nd} axis={ax}")
                 nt += 1
         res.sig = f"filters-{case['lens'][0]}"
+    elif cls == "filters-history":
+        # one process, ONE set of corners, many calls: every length 2..nmax in ascending order through lp, in descending order through hp, the same
+        # length at two sampling intervals, band-pass in between - each answer is the textbook response for ITS length and sampling interval,
+        # whatever was filtered before
+        def resp_hp(n, si, c):
+            f = np.abs(np.fft.fftfreq(n, si))
+            return np.where(f <= c[0], 0.0, np.where(f >= c[1], 1.0, (1 - np.cos((f - c[0]) / (c[1] - c[0]) * np.pi)) / 2))
+        corners = np.sort(rng.uniform(0.02, 0.45, 2))
+        corners[1] = max(corners[1], corners[0] + 0.02)
+        c4 = np.r_[np.sort(rng.uniform(0.02, 0.2, 2)) + [0, 0.01], np.sort(rng.uniform(0.25, 0.45, 2)) + [0, 0.01]]
+        lens = list(range(2, case["nmax"] + 1))
+        sigs = {n: rng.standard_normal(n) for n in lens}
+        plan = [("lp", n, 1.0) for n in lens] + [("hp", n, 1.0) for n in lens[::-1]] + [("bp", n, 1.0) for n in lens] + \
+               [(("lp", "hp")[n % 2], n, 0.5) for n in lens] + [(("hp", "lp")[n % 2], n, 1.0) for n in lens]
+        for typ, n, si in plan:
+            x = sigs[n]
+            try:
+                if typ == "bp":
+                    y = F.bp(x, si, c4)
+                    r = resp_hp(n, si, c4[0:2]) * (1 - resp_hp(n, si, c4[2:4]))
+                else:
+                    y = getattr(F, typ)(x, si, corners)
+                    r = resp_hp(n, si, corners) if typ == "hp" else 1 - resp_hp(n, si, corners)
+                ref = np.real(np.fft.ifft(np.fft.fft(x) * r))
+                res.check(y.shape == x.shape and np.max(np.abs(y - ref)) <= 1e-9 * max(1.0, np.max(np.abs(x))), f"filters:history:{typ}",
+                          f"{typ}(n={n}, si={si}, corners={np.round(corners if typ != 'bp' else c4, 4).tolist()}) after {typ}-calls on other lengths / sampling intervals with the same corners "
+                          f"differs from the cosine-tapered response of THIS length by {np.max(np.abs(y - ref)):.3g}", counter="filter_history_calls")
+            except Exception as e:
+                res.exception(f"filters:history:{typ}:exception", e, f"n={n} si={si}")
+        nt = len(plan)
+        res.sig = "filters-history"
     elif cls == "dft":
         for n in range(1, case["nmax"] + 1):
             for nd, ax in ((1, -1), (2, 0), (2, 1), (2, -1), (3, 1)):
